@@ -11,7 +11,9 @@ protocol/gossip.go SendVote / ProposeBlock / ProposeProof).
 2. harness/cmd/d_ba runs N REAL engines (consensus.Engine.loop in one goroutine per node, real Blockchain /
    Proposals / Votes / gossip handler per node, real frames between the handlers) and realises every schedule
    under a virtual node-local clock in which every sleep of an engine is a scheduling gate; seeded random
-   asynchronous schedules with forged votes (other round, other parent, stranger's key) are added.
+   asynchronous schedules are added, with votes that must never count (a member's signature over another round or
+   another parent, a stranger's signature, a second signature of a member whose vote the node holds - offered exactly
+   when one more vote would complete a quorum) and proposals of nodes whose sortition did not pass.
 3. TLC validates the recorded traces against spec/Trace_BA.tla: every observed vote, count result, commit and
    give-up must be the step BA allows from the observed pre-state; Agreement / CertifiedCommit / Validity are
    evaluated on the observed commits; every certificate is also judged by the real ValidateBlockCert of a
@@ -33,8 +35,10 @@ CLOCKS = ["consensus/engine.go", "consensus/future_blocks.go", "pengings/proposa
 JAVA = {"_JAVA_OPTIONS": "-Xmx4g"}
 
 ASSUMPTIONS = [
-    "BA: all nodes honest (one vote per step, the code's rule); Byzantine voters are only represented by forged votes "
-    "(other round / parent, stranger's key) that must never be counted; an equivocating committee member is not modelled",
+    "BA: nodes are honest (one vote per step, the code's rule) except, in the N=4 instances marked so, ONE committee member that does "
+    "not run the protocol and signs arbitrary, receiver-specific votes of the round (equivocation); Agreement then relies on 2T-N > 1 "
+    "(holds for 4 validators, T=3; TLC finds the disagreement for 3 validators, T=2, which the check does not run against the code); "
+    "equivocating PROPOSERS are not modelled; votes that must never count (other round / parent, stranger's key, re-signed copy) are offered too",
     "BA: committee = all validators (registries of 3 and 4 identities, thresholds 2 and 3 from the table of "
     "GetCommitteeVotesThreshold); the committee draw for larger registries is C07's Cert model",
     "BA: one round, one attempt: a node that ends with 'No consensus' or without the block is not followed into its retry of the round",
@@ -43,11 +47,12 @@ ASSUMPTIONS = [
     "BA: liveness is not checked",
 ]
 
-# (cfg, TLC workers).  quick: N=3 k<=1 5 steps | N=3 k=2 3 steps | N=4 k<=1 3 steps | N=3 k<=1 7 steps
+# (cfg, TLC workers).  quick: N=3 k<=1 5 steps | N=3 k=2 3 steps | N=4 k<=1 3 steps
 # thorough: N=3 k<=2 5 steps | N=3 k=3 3 steps | N=4 k<=1 5 steps | N=3 k<=1 7 steps
 # MC_BA_t4.cfg (N=4, k=2, 3 steps: 3.2 million distinct states, ~10 min on 6 workers) passes too; it is left out of the tiers for time.
-QUICK_MODELS = [("MC_BA_q1.cfg", 4), ("MC_BA_q2.cfg", 5), ("MC_BA_q3.cfg", 5), ("MC_BA_q4.cfg", 4)]
-THOROUGH_MODELS = [("MC_BA_t1.cfg", 5), ("MC_BA_t2.cfg", 6), ("MC_BA_t3.cfg", 5), ("MC_BA_t5.cfg", 3)]
+# z1 / z5: N=4 with one equivocating member (3 steps k<=1 | 5 steps k<=2)
+QUICK_MODELS = [("MC_BA_q1.cfg", 3), ("MC_BA_q2.cfg", 4), ("MC_BA_q3.cfg", 4), ("MC_BA_z1.cfg", 2)]
+THOROUGH_MODELS = [("MC_BA_t1.cfg", 5), ("MC_BA_t2.cfg", 6), ("MC_BA_t3.cfg", 5), ("MC_BA_t5.cfg", 3), ("MC_BA_z5.cfg", 4)]
 
 
 def _tlc(ctx, cfg, workers, sub, **kw):
@@ -63,17 +68,20 @@ def _tlc(ctx, cfg, workers, sub, **kw):
 def models(ctx, quick):
     """Exhaustive bounded runs + simulation; returns (results, exported schedules by source)."""
     specs = QUICK_MODELS if quick else THOROUGH_MODELS
-    nsim = 40 if quick else 800
+    nsim = 30 if quick else 800
     res, scheds = [], []
-    with concurrent.futures.ThreadPoolExecutor(max_workers=len(specs) + 1) as ex:
+    with concurrent.futures.ThreadPoolExecutor(max_workers=len(specs) + 2) as ex:
         futs = {}
         for cfg, w in specs:
             futs[ex.submit(_tlc, ctx, cfg, w, "ba_" + cfg[6:-4], timeout=3000, extra=["-seed", str(ctx.seed)])] = cfg
         futs[ex.submit(_tlc, ctx, "MC_BA_sim.cfg", 1 if quick else 4, "ba_sim", timeout=3000, simulate=True,
                        extra=["-simulate", "num=%d" % nsim, "-depth", "500", "-seed", str(ctx.seed)])] = "sim"
+        if not quick:       # the same with an equivocating member
+            futs[ex.submit(_tlc, ctx, "MC_BA_simz.cfg", 2, "ba_simz", timeout=3000, simulate=True,
+                           extra=["-simulate", "num=%d" % (nsim // 2), "-depth", "500", "-seed", str(ctx.seed)])] = "simz"
         for fu in concurrent.futures.as_completed(futs):
             cfg, r = futs[fu], fu.result()
-            if cfg == "sim":
+            if cfg in ("sim", "simz"):
                 m = re.findall(r"(\d+) states checked", r.out) or re.findall(r"number of states generated: (\d+)", r.out)
                 r.generated = r.distinct = int(m[-1]) if m else 0
                 if r.error:
@@ -84,7 +92,7 @@ def models(ctx, quick):
                                       % (cfg, r.invariant, (r.error or "")[:2500]))
             ex_ = [e for e in r.exports if isinstance(e, dict) and "sched" in e]
             for e in ex_:
-                e["src"] = "sim" if cfg == "sim" else "mc:" + cfg[6:-4]
+                e["src"] = "sim" if cfg in ("sim", "simz") else "mc:" + cfg[6:-4]
             scheds += ex_
             res.append((cfg, r))
             ctx.log("BA model %s: %d generated / %d distinct in %.0fs, %d schedules exported" % (cfg, r.generated, r.distinct, r.wall, len(ex_)))
@@ -141,8 +149,11 @@ def random_cases(rnd, count):
     res = []
     for i in range(count):
         n = rnd.choice((3, 3, 4, 4, 4))
-        res.append({"n": n, "k": rnd.randint(0, n), "maxsteps": rnd.choice((3, 5, 5, 7)), "src": "random", "kind": "random",
-                    "sched": [], "random": rnd.randint(1, 2 ** 40)})
+        c = {"n": n, "k": rnd.randint(0, n), "maxsteps": rnd.choice((3, 5, 5, 7)), "src": "random", "kind": "random",
+             "sched": [], "random": rnd.randint(1, 2 ** 40)}
+        if n == 4 and c["k"] < 4 and rnd.randint(0, 2) == 0:
+            c["byz"] = [1]                  # member 1 (not a proposer) does not run: the harness signs equivocating votes with its key
+        res.append(c)
     return res
 
 
@@ -252,13 +263,15 @@ def report(ctx, broken, cases, limit=10):
 def vacuity(rows):
     c = {"cases": 0, "commit_final": 0, "commit_tentative": 0, "commit_empty": 0, "end_noconsensus": 0, "end_notfound": 0, "fetched": 0,
          "tentative_at_step3+": 0, "empty_at_step4+": 0, "count_ok": 0, "count_timeout": 0, "votes": 0, "deliveries": 0, "forged_offered": 0,
-         "forged_in_pool": 0, "proposal_refused_as_worse": 0, "mixed_final_tentative": 0, "cases_n4": 0, "late_block": 0}
-    per = {}
+         "forged_in_pool": 0, "ineligible_proposals": 0, "cases_with_equivocator": 0, "equivocator_votes": 0, "equivocator_in_certificate": 0, "proposal_refused_as_worse": 0, "mixed_final_tentative": 0, "cases_n4": 0, "late_block": 0}
+    per, byz = {}, set()
     for r in rows:
         ev = r.get("ev")
         if ev == "Reset":
             c["cases"] += 1
             c["cases_n4"] += r["N"] == 4
+            c["cases_with_equivocator"] += bool(r.get("byz"))
+            byz = set(r.get("byz") or [])
         elif ev == "Commit":
             if r["v"] == 0:
                 c["commit_empty"] += 1
@@ -269,6 +282,7 @@ def vacuity(rows):
                 c["commit_tentative"] += 1
                 c["tentative_at_step3+"] += 3 <= r["cert"]["s"] < 250
             per.setdefault(r["c"], set()).add("final" if r["final"] else "tentative" if r["v"] else "empty")
+            c["equivocator_in_certificate"] += bool(byz & set(r["cert"]["voters"]))
         elif ev == "End":
             c["end_" + r["kind"]] = c.get("end_" + r["kind"], 0) + 1
         elif ev == "Fetch":
@@ -279,11 +293,15 @@ def vacuity(rows):
             c["votes"] += 1
         elif ev == "Deliver":
             c["deliveries"] += 1
-            if r.get("forged"):
+            if r.get("forged") == "ineligible":
+                c["ineligible_proposals"] += 1
+            elif r.get("forged"):
                 c["forged_offered"] += 1
                 c["forged_in_pool"] += r.get("acc", 0)
             elif r["t"] == "block" and not r.get("stored"):
                 c["proposal_refused_as_worse"] += 1
+            elif r["t"] == "vote" and r["w"] in byz:
+                c["equivocator_votes"] += 1
     c["mixed_final_tentative"] = sum(1 for s in per.values() if {"final", "tentative"} <= s)
     return c
 
@@ -408,8 +426,8 @@ def run(ctx, quick):
     ctx.log("BA trace: %d lines validated, %d clause reports, drift %d; %s" % (lines, len(broken), drift, json.dumps(vac)))
     if not broken:
         dead = [k for k in ("commit_final", "commit_tentative", "commit_empty", "end_noconsensus", "end_notfound", "fetched", "tentative_at_step3+",
-                            "empty_at_step4+", "count_ok", "count_timeout", "forged_offered", "forged_in_pool", "proposal_refused_as_worse",
-                            "mixed_final_tentative", "cases_n4") if not vac.get(k)]
+                            "empty_at_step4+", "count_ok", "count_timeout", "forged_offered", "forged_in_pool", "ineligible_proposals", "proposal_refused_as_worse",
+                            "mixed_final_tentative", "cases_n4", "cases_with_equivocator", "equivocator_votes", "equivocator_in_certificate") if not vac.get(k)]
         if dead:
             raise vlib.CheckError("dead BA driver: no case exercised %s" % dead)
         selftest(ctx, rows)
@@ -417,7 +435,8 @@ def run(ctx, quick):
         ctx.notes.append("BA conformance_drift: %d lines where the proposal / vote pool kept something else than the model predicts (no clause broken)" % drift)
 
     return {
-        "ba_states": sum(r.distinct for _, r in mres), "ba_transitions": sum(r.generated for _, r in mres),
+        "ba_states": sum(r.distinct for c, r in mres if not c.startswith("sim")), "ba_transitions": sum(r.generated for c, r in mres if not c.startswith("sim")),
+        "ba_simulation_states_checked": sum(r.generated for c, r in mres if c.startswith("sim")),
         "ba_models": {cfg: {"distinct": r.distinct, "generated": r.generated, "wall_s": round(r.wall, 1)} for cfg, r in mres},
         "ba_rounds_on_real_engines": vac["cases"], "ba_trace_lines_validated": lines, "ba_schedule_kinds": len(kinds),
         "ba_classes_exercised": vac, "ba_drift_lines": drift,
